@@ -56,6 +56,9 @@ func genC03(t *rapid.T) c03Case {
 		c.Matcher = rapid.IntRange(0, 3).Draw(t, "matcher") == 0
 	}
 	names := []string{"a", "b", "c", "d", "e"}
+	if c.Kind == "lookup" {
+		names = append(names, "") // the empty string is a key like any other (it is what the default lookup yields for a context without a key)
+	}
 	genPart := func(nameGen *rapid.Generator[string]) *rapid.Generator[c03Part] {
 		return rapid.Custom(func(t *rapid.T) c03Part {
 			p := c03Part{Name: nameGen.Draw(t, "name"), Frac: genFrac().Draw(t, "f"), Init: rapid.SampledFrom([]int{1, 1, 0, 3, 10, 50}).Draw(t, "init")}
